@@ -42,6 +42,7 @@ struct _thpool {
     pthread_cond_t notify;
     m_list_t *threads;              /* Always used behind a mutex */
     m_queue_t *tasks;               /* Always used behind a mutex */
+    unsigned int alive_threads;     /* Worker threads that did not leave thpool_thread() yet. Always used behind a mutex */
     atomic_uint running_tasks;
     m_thpool_flags flags;           /* Nobody writes this but us during thpool_new. No need to use an atomic */
 };
@@ -86,6 +87,11 @@ static void *thpool_thread(void *thpool) {
         pool->running_tasks--;
     }
     
+    /* We own the lock here: tell a freeing thread waiting on a detached pool that we are leaving */
+    pool->alive_threads--;
+    if (pool->flags & M_THPOOL_DETACHED) {
+        pthread_cond_broadcast(&(pool->notify));
+    }
     pthread_mutex_unlock(&(pool->lock));
     return NULL;
 }
@@ -98,8 +104,18 @@ static int wait_pool(m_thpool_t *pool, thpool_shutdown_t shutdown) {
 
     pool->shutdown = shutdown;
 
-    /* Wake up all worker threads and unlock mutex */
-    ret = pthread_cond_broadcast(&pool->notify) + pthread_mutex_unlock(&pool->lock);
+    /* Wake up all worker threads */
+    ret = pthread_cond_broadcast(&pool->notify);
+    if (pool->flags & M_THPOOL_DETACHED) {
+        /*
+         * Detached threads cannot be joined: wait until each of them left the pool,
+         * else they would keep using the pool after it is destroyed.
+         */
+        while (ret == 0 && pool->alive_threads > 0) {
+            ret = pthread_cond_wait(&pool->notify, &pool->lock);
+        }
+    }
+    ret += pthread_mutex_unlock(&pool->lock);
     if (ret == 0) {
         if (!(pool->flags & M_THPOOL_DETACHED)) {
             /* Join all worker threads */
@@ -133,6 +149,7 @@ static int add_threads(m_thpool_t *pool, int num) {
         err = pthread_create(th, &tattr, thpool_thread, (void *) pool);
         if (err == 0) {
             m_list_insert(pool->threads, th);
+            pool->alive_threads++;
         } else {
             memhook._free(th);
         }
@@ -177,8 +194,10 @@ _public_ m_thpool_t *m_thpool_new(uint8_t thread_count, m_thpool_flags flags) {
 
         err = 0;
         if (!(flags & M_THPOOL_LAZY)) {
-            /* Start worker threads */
+            /* Start worker threads (behind the mutex, like the lazy path: they share the pool's bookkeeping) */
+            pthread_mutex_lock(&(pool->lock));
             err = add_threads(pool, thread_count);
+            pthread_mutex_unlock(&(pool->lock));
         }
     } while (false);
     
